@@ -257,6 +257,32 @@ def run_history(ld, n, hist, cross_at, res, upstream='map'):
                 break
         if bad:
             break
+    # successors: a copy of the cache survives while the cache it was copied
+    # from is dropped; caches built afterwards over OTHER pipelines (their
+    # objects may get the memory addresses just released) serve their own
+    # pipeline
+    if n and w.frozen is None and len(hist) % 4 == 0:
+        survivor = w.handles[0].copy()
+        w.handles = []
+        w.base = None
+        succ_calls = []
+
+        def up_succ(x):
+            succ_calls.append(x)
+            return ('succ', x)
+        successors = []
+        for t in range(24):
+            nb = ld.new(dict(zip(w.keys, range(n)))).map(up_succ).cache(keep_mem_free='8 GB')
+            successors.append(nb)
+            j = t % n
+            got = nb[j]
+            res.count('successor_cache_accesses')
+            if got != ('succ', j):
+                res.violation('caches-share-a-store', {**case, 'successor': t},
+                              {'successor_returned': got, 'want': ('succ', j)},
+                              sig={'access': 'successor', 'after_threshold': False})
+                break
+        del survivor, successors
     res.case((n, tuple(hist), cross_at, upstream),
              any(c >= 2 for c in requested.values()))
 
